@@ -32,7 +32,10 @@ LEVEL_NOTE = ("PARTIAL BY DESIGN. Proved: for the matrix fields a writer was see
               "sees the same matrix; the SYM Mux blocks do not depend on the order in which the set of multiplexer values is walked. "
               "The model is of the code WITH fixes/C14_{arxml,fibex,kcd}_copy.patch and C14_sym_sorted.patch; the tree before them is "
               "kept in the same file (copies=false / sym_emit_in_order) and the four findings are theorems `_refuted` with `_partial` "
-              "envelopes. NOT proved, only run: that the other fields stay untouched (deep snapshot before/after), the bytes themselves "
+              "envelopes. NOT proved, only run: that the other fields stay untouched - attribute DEFINITIONS (definition, type, default, min, max, "
+              "values), attributes, value tables and the ORDER of every list and dict are covered by the deep snapshot before/after only, the model's "
+              "matrix type does not carry them; matrices produced by the readers (shipped sample files, generated matrices read back) are subjects of "
+              "the search and of the effect tie, not of the ARXML/FIBEX/KCD/SYM byte-level ties; decode is not probed on container-PDU frames; the bytes themselves "
               "(169 ordered writer pairs per matrix), lxml/xlwt/json serialisation, and CPython's actual hash order - determinism is "
               "observed over the PYTHONHASHSEED values listed in the evidence, in separate processes, not for all seeds. "
               "jsonExportCanard is outside: it rejects every matrix whose factors are Decimals.")
@@ -49,6 +52,8 @@ def _init():
     import canmatrix.formats as F
     _G["C"] = cm.canmatrix
     _G["F"] = F
+    import resource
+    resource.setrlimit(resource.RLIMIT_AS, (8 << 30, 8 << 30))      # a runaway case ends as MemoryError in its worker, not as a dead machine
     _G["tmp"] = os.path.join(_G["tmp_parent"], "w%d" % os.getpid())
     os.makedirs(_G["tmp"], exist_ok=True)
 
@@ -168,20 +173,32 @@ def view_from_bytes(w, data, db):
     raise ValueError(w)
 
 
+def _too_long(*_a):
+    raise TimeoutError("case did not finish within 600 s")
+
+
 def eval_case(arg):
+    import signal
+    signal.signal(signal.SIGALRM, _too_long)
+    signal.alarm(600)
     try:
         return eval_case_(arg)
-    except Exception:       # a crash of the machinery on one case must not hide what the other cases found
+    except (Exception, MemoryError):       # a crash of the machinery on one case must not hide what the other cases found
         import traceback
         return dict(idx=arg[1], info=dict(profile="crash"), violations=[], counts={}, ties=[], pairs=0, nontrivial=False,
                     rejected={}, crash=traceback.format_exc()[-1500:])
+    finally:
+        signal.alarm(0)
 
 
 def eval_case_(arg):
     base_seed, idx = arg
     C, F, tmp = _G["C"], _G["F"], _G["tmp"]
     db, info = K.build_case(base_seed, idx, C)
+    if db is None:
+        return dict(idx=idx, info=info, skipped=info.get("skipped", "?"))
     res = dict(idx=idx, info=info, violations=[], counts=collections.Counter(), ties=[], pairs=0, nontrivial=False)
+    from_reader = idx <= K.FILE_BASE or idx >= K.REREAD_BASE
     cnt = res["counts"]
     cnt["profile-" + info["profile"]] += 1
     fields0 = K.modelled_fields(db)
@@ -197,19 +214,27 @@ def eval_case_(arg):
                      (any(f.cycle_time for f in db.frames), "cycle-times")):
         if flag:
             cnt["feature-" + nm] += 1
-    res["nontrivial"] = dupf or dups or unprop or muxn >= 2
+    res["nontrivial"] = dupf or dups or unprop or muxn >= 2 or from_reader
+    ndef = sum(len(getattr(db, c_)) for c_ in ("global_defines", "ecu_defines", "frame_defines", "signal_defines", "env_defines"))
+    nodd = sum(1 for c_ in ("global_defines", "ecu_defines", "frame_defines", "signal_defines", "env_defines")
+               for d_ in getattr(db, c_).values() if d_.type not in ("ENUM", "STRING", "INT", "HEX", "FLOAT"))
+    if ndef:
+        cnt["feature-has-defines"] += 1
+    if nodd:
+        cnt["feature-defines-of-unknown-type"] += 1
     if info.get("shuffled"):
         cnt["feature-orders-shuffled"] += 1
     if any(any(s.is_multiplexer for s in f.signals) and not f.signals[0].is_multiplexer for f in db.frames):
         cnt["feature-multiplexer-not-first-signal"] += 1
-    summary = dict(case=dict(base_seed=base_seed, idx=idx, rebuild="harness/c14_cases.build_case(base_seed, idx, canmatrix.canmatrix)"),
+    summary = dict(case=dict(base_seed=base_seed, idx=idx, file=info.get("file"), via=info.get("via"), rebuild="harness/c14_cases.build_case(base_seed, idx, canmatrix.canmatrix)"),
                    profile=info["profile"], frames=fields0 if len(json.dumps(fields0)) < 3000 else "(large; rebuild from case)",
                    features={k: v for k, v in info.items() if k not in ("features", "idx", "base_seed")})
     state0 = K.state(db, base_seed, idx)
+    fresh = K.copier(db, base_seed, idx, C)
     alone, after_fields, rejected = {}, {}, {}
     # ---- (a) one export on a fresh copy: state before == state after ----
     for w in K.WRITER_KEYS:
-        d = copy.deepcopy(db)
+        d = fresh()
         r = K.try_export(F, d, w, tmp)
         if r[0] != "ok":
             rejected[w] = r[1]
@@ -227,12 +252,19 @@ def eval_case_(arg):
                                           input=dict(summary, writer=w), expected="state after == state before",
                                           observed=[dict(path=p, before=a, after=b) for p, a, b in df[:6]]))
     # copy.deepcopy itself must be faithful or (a)/(b) compare nothing
-    if K.state(copy.deepcopy(db), base_seed, idx) != state0:
-        res["violations"].append(dict(key="harness-deepcopy-unfaithful", what="deep copy differs from original", input=summary))
+    # the rebuilt matrix must equal the original, and the original - never handed to a writer - must still be what it was
+    if K.state(fresh(), base_seed, idx) != state0:
+        res["violations"].append(dict(key="harness-rebuild-unfaithful", what="the case rebuilt from its seed differs from the first build", input=summary))
+    try:
+        dc = copy.deepcopy(db)
+        if K.state(dc, base_seed, idx) != state0:
+            res["violations"].append(dict(key="deepcopy-unfaithful", what="copy.deepcopy of the matrix differs from the matrix", input=summary))
+    except Exception as e:
+        cnt["matrix-cannot-be-deep-copied (%s)" % type(e).__name__] += 1
     # ---- (b) ordered pairs on the same object ----
     for a in alone:
         for b in alone:
-            d = copy.deepcopy(db)
+            d = fresh()
             ra = K.try_export(F, d, a, tmp)
             rb = K.try_export(F, d, b, tmp)
             res["pairs"] += 1
@@ -251,7 +283,7 @@ def eval_case_(arg):
     hist = [hrng.choice(sorted(alone)) for _ in range(hrng.randrange(3, 7))] if alone else []
     hist_fields = None
     if hist:
-        d = copy.deepcopy(db)
+        d = fresh()
         last = None
         culprit = None      # the first export of the history after which the object differs
         for w in hist:
@@ -267,6 +299,10 @@ def eval_case_(arg):
                                           "fresh copy's" % hist, input=dict(summary, history=hist, first_export_that_changed_the_object=culprit),
                                           expected="state and bytes as for a fresh copy",
                                           observed=[dict(path=p_, before=a_, after=b_) for p_, a_, b_ in matgen.diff(state0, K.state(d, base_seed, idx))[:4]]))
+    if K.state(db, base_seed, idx) != state0:
+        res["violations"].append(dict(key="export-of-a-copy-changes-the-original", what="a matrix that was never handed to a writer changed while "
+                                      "copies of it were exported", input=summary,
+                                      observed=[dict(path=p_, before=a_, after=b_) for p_, a_, b_ in matgen.diff(state0, K.state(db, base_seed, idx))[:4]]))
     # ---- tie data ----
     ecu, sig = intern_matrix(fields0)
     enc0 = encode_matrix(fields0, ecu, sig)
@@ -282,8 +318,10 @@ def eval_case_(arg):
         exp = encode_matrix(after_fields[w], ecu, sig)
         res["ties"].append(("effect", core.fmt_case(1401, [[WCODE[w], flag(w)]] + enc0), exp, dict(idx=idx, writer=w, copies=flag(w))))
     rev = {v: k for k, v in ecu.items()}
+    # view / SYM ties: generated and corpus matrices only (reader-made matrices carry PDUs, Sendable/Receivable sections ... that the
+    # small parsers below do not know; their export EFFECT is tied above like everyone's)
     for w in ("arxml", "fibex", "kcd"):
-        if w in alone:
+        if w in alone and not from_reader:
             try:
                 got = view_from_bytes(w, alone[w], db)
             except Exception as e:
@@ -291,7 +329,7 @@ def eval_case_(arg):
             res["ties"].append(("view", core.fmt_case(1402, [[WCODE[w]]] + enc0), None,
                                 dict(idx=idx, writer=w, got=got, rev=rev, sig={v: k for k, v in sig.items()},
                                      complex=[bool(f.is_complex_multiplexed) for f in db.frames])))
-    if "sym" in alone:
+    if "sym" in alone and not from_reader:
         blocks = parse_sym_blocks(alone["sym"])
         pos = 0
         for f in db.frames:
@@ -337,12 +375,12 @@ def first_diff(x, y):
 
 
 # ------------------------------------------------------------------------------------------------ determinism
-def run_runner(hashseed, base_seed, first, count, extra=()):
+def run_runner(hashseed, base_seed, idxs, extra=()):
     env = dict(os.environ)
     env["PYTHONHASHSEED"] = str(hashseed)
     env["PYTHONPATH"] = core.SRC
     env["PYTHONDONTWRITEBYTECODE"] = "1"
-    cmd = [sys.executable, os.path.join(core.VERIF, "harness", "c14_runner.py"), str(base_seed), str(first), str(count)] + list(extra)
+    cmd = [sys.executable, os.path.join(core.VERIF, "harness", "c14_runner.py"), str(base_seed), ",".join(str(i) for i in idxs) or "none"] + list(extra)
     p = subprocess.run(cmd, env=env, stdout=subprocess.PIPE, stderr=subprocess.PIPE, text=True, timeout=1500)
     if p.returncode != 0:
         raise RuntimeError("c14_runner failed under PYTHONHASHSEED=%s: %s" % (hashseed, p.stderr[-1500:]))
@@ -361,21 +399,31 @@ def run(chk):
         per_key[key] += 1
         if key in known_keys or per_key[key] <= 3:
             chk.violation(key, what, input, expected, observed)
-    ncases = 3000 if thorough else 280
+    ncases = 2600 if thorough else 180
+    nreread = 60 if thorough else 12         # generated matrices written and read back through each of the 7 read+write formats
     hashseeds = [0, 1, 2, 3, 5, 7, 11, 4242] if thorough else [0, 1, 7]
     chk.rule = ("%d seeded matrices (profiles plain / rich / duplicate frame names / unpropagated receivers / both / many mux groups / all, "
                 "plus long names, free signals, cycle times, equal signal names in two frames; in 3 of 4 matrices every ordered container - frames, ecus, "
                 "signals of a frame incl. the position of the multiplexer, transmitters, receivers, attribute/define/value-table insertion order, signal "
-                "groups - is randomly permuted) + %d hand-made corpus matrices; per matrix: 13 "
+                "groups - is randomly permuted; every second matrix carries attribute definitions of kinds DBC does not know - BOOL, STR, empty, "
+                "lower-case, oddly quoted ENUMs - in all four categories) + %d hand-made corpus matrices + the shipped sample files under tests/files "
+                "as read by their readers + generated matrices written and read back through dbc/dbf/sym/kcd/json/arxml/xls; per matrix: 13 "
                 "writers alone, all ordered pairs of the writers that accept it, %d PYTHONHASHSEED values in separate processes. One evaluation "
                 "= one (matrix, first writer, second writer) triple or one (matrix, writer, hash seed) export; non-trivial = the matrix has "
-                "duplicate frame or signal names, unpropagated receivers, or a multiplexed frame" % (ncases, K.N_CORPUS, len(hashseeds)))
+                "duplicate frame or signal names, unpropagated receivers, a multiplexed frame, or comes from a reader" % (ncases, K.N_CORPUS, len(hashseeds)))
     ok = chk.build_and_audit()
-    core.import_impl()
+    cm_ = core.import_impl()
+    # the snapshot must see every field of a Define (values only, no identities): a writer that 'repairs' a define in place shows there
+    for d_, fields in (("INT 0 5", ("definition", "type", "defaultValue", "min", "max")), ('ENUM "a","b"', ("definition", "type", "defaultValue", "values")),
+                       ("BOOL False True", ("definition", "type", "defaultValue"))):
+        snap = K.snapshot(cm_.canmatrix.Define(d_))
+        if any(f_ not in snap for f_ in fields) or "__ref__" in json.dumps(snap):
+            chk.obligation_failures.append("deep snapshot does not cover Define fields %s" % (fields,))
     base_seed = chk.rng.randrange(1, 2 ** 31)
-    first = -K.N_CORPUS
-    total = ncases + K.N_CORPUS
-    idxs = list(range(first, ncases))
+    nfiles = len(K.sample_files(core.REPO))
+    # the (few, large) reader-produced sample matrices first so that they do not end up as the tail of the pool
+    idxs = [K.FILE_BASE - n for n in range(K.BUSES_PER_FILE * nfiles)] + list(range(-K.N_CORPUS, 0)) \
+        + [K.REREAD_BASE + 8 * j + f for j in range(nreread) for f in range(len(K.REREAD_FORMATS))] + list(range(ncases))
     chk.extra["hash_seeds"] = hashseeds
     chk.extra["base_seed"] = base_seed
 
@@ -393,11 +441,11 @@ def run(chk):
         with ctx.Pool(nworkers, initializer=_init) as pool:      # fork before any thread exists
             # (c) determinism runners, in the background, sharded
             ex = concurrent.futures.ThreadPoolExecutor(max_workers=max(2, core.NPROC // 2))
-            shard = 70 if thorough else 50
+            shard = 70 if thorough else 45
             futs = {}
             for hs in hashseeds:
-                for s0 in range(first, ncases, shard):
-                    futs[(hs, s0)] = ex.submit(run_runner, hs, base_seed, s0, min(shard, ncases - s0))
+                for s0 in range(0, len(idxs), shard):
+                    futs[(hs, s0)] = ex.submit(run_runner, hs, base_seed, idxs[s0:s0 + shard])
             # (a) + (b)
             results = pool.map(eval_case, [(base_seed, i) for i in idxs], chunksize=2)
     finally:
@@ -406,6 +454,9 @@ def run(chk):
     infos = {}
     for r in results:
         infos[r["idx"]] = r["info"]
+        if r.get("skipped"):
+            chk.count("skipped-%s: %s" % (r["info"].get("profile"), r["skipped"]))
+            continue
         if r.get("crash"):
             chk.obligation_failures.append("harness crashed on case %d: %s" % (r["idx"], r["crash"].strip().splitlines()[-1]))
             chk.build_log = r["crash"]
@@ -419,10 +470,11 @@ def run(chk):
         for v in r["violations"]:
             violation(v["key"], v["what"], v.get("input"), v.get("expected"), v.get("observed"))
         ties += r["ties"]
-        if r["idx"] in (-1, -2, -5, 0, 2, 5):
+        if r["idx"] in (-1, -5, 1, 2, K.FILE_BASE - 16, K.REREAD_BASE + 10):
             chk.sample(dict(idx=r["idx"], profile=r["info"]["profile"], corpus=r["info"].get("corpus"),
                             dup_names=r["info"].get("dup_names"), unpropagated=r["info"].get("unpropagated"),
                             bigmux_values=len(r["info"].get("bigmux", {}).get("values", [])), pairs=r["pairs"],
+                            file=r["info"].get("file"), via=r["info"].get("via"), odd_defines=r["info"].get("odd_defines"),
                             rejected=r["rejected"]))
 
     # (c) collect
@@ -431,6 +483,8 @@ def run(chk):
     for (hs, s0), fu in futs.items():
         for line in fu.result().splitlines():
             o = json.loads(line)
+            if "skipped" in o:
+                continue
             states[o["idx"]][hs] = o["state"]
             for w, h in o["w"].items():
                 per[(o["idx"], w)][hs] = h
@@ -438,12 +492,22 @@ def run(chk):
                 violation("%s-not-repeatable" % w, "%s: two exports of equal matrices in one process differ" % w,
                               dict(case=dict(base_seed=base_seed, idx=o["idx"]), writer=w, hashseed=hs))
     ex.shutdown()
+    reader_dependent = set()
     for idx, st in states.items():
         if len(set(st.values())) != 1:
-            # the generator must not depend on the hash seed; otherwise (c) compares different matrices
-            chk.obligation_failures.append("case %d is not rebuilt identically under different hash seeds (harness defect)" % idx)
+            if idx <= K.FILE_BASE or idx >= K.REREAD_BASE:
+                # the READER gave different matrices under different hash seeds: not a statement about exporting (C14); the
+                # cross-seed comparison of this case would compare different matrices and is left out, visibly
+                reader_dependent.add(idx)
+                chk.count("reader-output-depends-on-hashseed (case left out of the cross-seed comparison): %s"
+                          % (infos.get(idx, {}).get("file") or infos.get(idx, {}).get("profile")))
+            else:
+                # the generator must not depend on the hash seed; otherwise (c) compares different matrices
+                chk.obligation_failures.append("case %d is not rebuilt identically under different hash seeds (harness defect)" % idx)
     ndet = 0
     for (idx, w), hs in sorted(per.items()):
+        if idx in reader_dependent:
+            continue
         vals = set(hs.values())
         ndet += len(hs)
         chk.evaluations += len(hs)
@@ -458,8 +522,8 @@ def run(chk):
             obs = dict(hashseeds_by_output=groups)
             if all(not h.startswith("REJ") for h in vals) and per_key["%s-hashseed-order" % w] < 3:      # diagnosis for the first few
                 try:
-                    x = bytes.fromhex(run_runner(groups[0][0], base_seed, 0, 0, ["--bytes", str(idx), w]).strip())
-                    y = bytes.fromhex(run_runner(groups[1][0], base_seed, 0, 0, ["--bytes", str(idx), w]).strip())
+                    x = bytes.fromhex(run_runner(groups[0][0], base_seed, [], ["--bytes", str(idx), w]).strip())
+                    y = bytes.fromhex(run_runner(groups[1][0], base_seed, [], ["--bytes", str(idx), w]).strip())
                     fd = first_diff(x, y)
                     if "line" in fd:
                         fd = {"line": fd["line"], "under_seed_%d" % groups[0][0]: fd["alone"], "under_seed_%d" % groups[1][0]: fd["after"]}
@@ -467,7 +531,7 @@ def run(chk):
                 except Exception as e:      # diagnosis only
                     obs["first_difference"] = "unavailable: %r" % e
             violation("%s-hashseed-order" % w, "%s: the same matrix exports to different bytes under different PYTHONHASHSEED" % w,
-                          dict(case=dict(base_seed=base_seed, idx=idx, rebuild="PYTHONHASHSEED=<s> harness/c14_runner.py %d 0 0 --bytes %d %s" % (base_seed, idx, w)),
+                          dict(case=dict(base_seed=base_seed, idx=idx, rebuild="PYTHONHASHSEED=<s> harness/c14_runner.py %d none --bytes %d %s" % (base_seed, idx, w)),
                                writer=w, profile=infos.get(idx, {}).get("profile"), bigmux=infos.get(idx, {}).get("bigmux")),
                           "identical bytes under all hash seeds", obs)
     chk.count("determinism-exports", ndet)
